@@ -10,7 +10,8 @@
    Then: for sorted entries and a comparator whose separator / successor satisfy their
    contracts, every index key is >= every key of its block and < every key of all later
    blocks ([index_rel]).  The contracts are proved for the two lcdb comparators.
-   Compression is off in this file. *)
+   The compression function is arbitrary, as long as the Snappy decoder inverts it
+   wherever its output is kept and it only shrinks blocks below 4 GiB. *)
 From LCDB Require Import Base Varint Crc32c Block Trie Filter Snappy TableFormat IKey.
 From LCDB Require Import BaseProofs VarintProofs Crc32cProofs BlockProofs BlockIterProofs BlockSeekProofs
   FilterProofs FilterBlockProofs SnappyProofs TableProofs TableBuildProofs IKeyProofs BlockCursorProofs.
